@@ -23,7 +23,7 @@ LEVEL_NOTE = ("Trusted: Lean kernel (+ standard axioms); the model is written ag
               "sum/mean follow F16a. _col_any, argmax, mean: correspondence-only facets.")
 TECHNIQUE = "Lean 4 proof of per-row decode = dense semantics for constructors, selection, reductions, ufuncs; correspondence"
 DESIGN_REF = "7"
-LEAN_MODULES = ["NpsVerif.Props.C17A", "NpsVerif.Props.C17B", "NpsVerif.Props.C17C"]
+LEAN_MODULES = ["NpsVerif.Props.C17A", "NpsVerif.Props.C17B", "NpsVerif.Props.C17C", "NpsVerif.Props.C17D"]
 KERNELS = ()
 RULE = ("cases = input (matrix r x c <= 3x4 over 2-3 letters exhaustive-sampled / ragged array with row lengths 1..4 / interval list) "
         "x class (RunLength2dArray, RunLengthRaggedArray) x operation (to_array, len/shape/size, row int / slice / list / mask, "
